@@ -568,6 +568,11 @@ class Memory():
             self._write_requests_lock.acquire()
             do_call_sucess_cb = False
             do_call_fail_cb = False
+            if len(self._write_requests.get(id, [])) == 0:
+                # Duplicated or late answer for a request that is already completed,
+                # or the requests were dropped by a disconnect while waiting for the lock
+                self._write_requests_lock.release()
+                return
             wreq = self._write_requests[id][0]
             if status == 0:
                 if wreq.write_done(addr):
